@@ -617,6 +617,7 @@ static void apply_kv (struct vf_config *cfg, const char *kv, int **script_store)
 	else if (strncmp (kv, "checkplain=", 11) == 0) { cfg->check_plain = atoi (kv + 11); }
 	else if (strncmp (kv, "plainsched=", 11) == 0) { cfg->plain_sched = atoi (kv + 11); }
 	else if (strncmp (kv, "failmalloc=", 11) == 0) { cfg->fail_malloc_at = atoi (kv + 11); }
+	else if (strncmp (kv, "failmallocfrom=", 15) == 0) { cfg->fail_malloc_from = atoi (kv + 15); }
 	else if (strncmp (kv, "futexfault=", 11) == 0) { cfg->futex_fault_prob = atoi (kv + 11); }
 	else if (strncmp (kv, "sched=", 6) == 0) {
 		/* comma separated tids, T = tick */
